@@ -304,7 +304,7 @@ def check_negotiate(prog, r):
             txt = show(e, 300)
             work = [p["l"]] if p and not p.get("p") else []
             seen_l = set()
-            while work and len(seen_l) < 6:
+            while work and len(seen_l) < 12:
                 ll_ = work.pop()
                 if ll_ in seen_l:
                     continue
@@ -316,6 +316,9 @@ def check_negotiate(prog, r):
                     for x in walk(ee):
                         if isinstance(x, tuple) and x and x[0] == "tmp":
                             work.append(x[1])
+                        if isinstance(x, tuple) and x and x[0] == "var":
+                            # a hoisted `let both = has(local) && has(remote);`: follow the named local too
+                            work.extend(l_ for l_, n_ in nv.local_name.items() if n_ == x[1] and l_ > nv.f["argc"])
             if "local" in txt and "remote" in txt:
                 okb = True
         if okb:
